@@ -347,7 +347,8 @@ def collect_guarded(log, func_call):
     return moved
 
 
-DISPATCH_SHAPES = [dict(n=n, nested=ne, cores=c) for n in (1, 2, 3) for ne in (False, True) for c in (2, 3) if not (n == 3 and ne)]
+DISPATCH_SHAPES = [dict(n=n, nested=ne, cores=c) for n in (1, 2, 3) for ne in (False, True) for c in (2, 3) if not (n == 3 and ne)] + [
+    dict(n=2, nested=False, cores=2, blocks=2)]
 
 
 @contract
@@ -372,7 +373,11 @@ class DispatchRegionsRewriter_contract:
             top.insert(1, loop)
             ops = [ops[0], inner[0]] + ops[1:]
         top.append(DOp(False, False))  # terminator
-        f = func.FuncOp("f", None, Region([Block(top)]))
+        if sh.get("blocks") == 2:
+            # a function with two blocks: the first op (and a terminator) in ^bb0, the rest in ^bb1
+            f = func.FuncOp("f", None, Region([Block([top[0], DOp(False, False)]), Block(top[1:])]))
+        else:
+            f = func.FuncOp("f", None, Region([Block(top)]))
         return [f, ops, top]
 
     def requires(sh, a):
@@ -399,11 +404,12 @@ class DispatchRegionsRewriter_contract:
                       and cmp_.predicate == "eq" and ((o.dm and den(cmp_.operands[1]) == sh["cores"] - 1) or (o.comp and den(cmp_.operands[1]) == 0)))
             elif len(mine) == 1:
                 check(f"op {k}: moved under an scf.if created by the dispatcher", False)
-        order = [m[0] for m in moved]
-        pos = [[i for i, o in enumerate(ops) if o is x][0] for x in order if any(o is x for o in ops)]
+        check("only ops a rule names are ever moved under a guard", all(any(o is m[0] for o in ops) for m in moved))
         by_if = {}
         for m in moved:
-            by_if.setdefault(id(m[1]), []).append([i for i, o in enumerate(ops) if o is m[0]][0])
+            idx = [i for i, o in enumerate(ops) if o is m[0]]
+            if len(idx) == 1:
+                by_if.setdefault(id(m[1]), []).append(idx[0])
         check("inside each guard the ops keep their original relative order", all(v == sorted(v) for v in by_if.values()))
         if len(moved) > 0:
             check("the core id is obtained by exactly one call, pinned to the constants 0..nb_cores-1", len(calls) == 1
